@@ -7,16 +7,35 @@ stream-preserving steps, in dispatch order.
 import Desverif.Model.Repro
 namespace Repro
 
-def Drops (s s' : Sim) : Prop := ∃ k, s'.stream = s.stream.drop k
+/-- `s'` is reached from `s` by consuming `used` from the front of the random stream; the tokio seeds recorded on
+    the way (`extra`) are among the consumed elements -/
+def Drops (s s' : Sim) : Prop :=
+  ∃ (used : List Nat) (extra : List (String × Nat)),
+    s.stream = used ++ s'.stream ∧ s'.seeds = s.seeds ++ extra ∧ ∀ x ∈ extra, x.2 ∈ used
 
-theorem Drops.refl (s : Sim) : Drops s s := ⟨0, rfl⟩
+theorem Drops.refl (s : Sim) : Drops s s := ⟨[], [], by simp, by simp, by simp⟩
 
-theorem Drops.of_eq {s s' : Sim} (h : s'.stream = s.stream) : Drops s s' := ⟨0, by simp [h]⟩
+theorem Drops.of_eq {s s' : Sim} (h : s'.stream = s.stream) (h2 : s'.seeds = s.seeds) : Drops s s' :=
+  ⟨[], [], by simp [h], by simp [h2], by simp⟩
 
 theorem Drops.trans {s1 s2 s3 : Sim} (h1 : Drops s1 s2) (h2 : Drops s2 s3) : Drops s1 s3 := by
-  obtain ⟨k, hk⟩ := h1
-  obtain ⟨j, hj⟩ := h2
-  exact ⟨k + j, by rw [hj, hk, List.drop_drop]⟩
+  obtain ⟨u1, e1, hs1, hd1, hm1⟩ := h1
+  obtain ⟨u2, e2, hs2, hd2, hm2⟩ := h2
+  refine ⟨u1 ++ u2, e1 ++ e2, by rw [hs1, hs2, List.append_assoc], by rw [hd2, hd1, List.append_assoc], ?_⟩
+  intro x hx
+  rcases List.mem_append.mp hx with hx | hx
+  · exact List.mem_append.mpr (Or.inl (hm1 x hx))
+  · exact List.mem_append.mpr (Or.inr (hm2 x hx))
+
+theorem Drops.after_eq {s s' s'' : Sim} (h : Drops s' s'') (h1 : s'.stream = s.stream) (h2 : s'.seeds = s.seeds) :
+    Drops s s'' := (Drops.of_eq h1 h2).trans h
+
+/-- what is left is the stream without some number of leading elements -/
+theorem Drops.drop {s s' : Sim} (h : Drops s s') : ∃ k, s'.stream = s.stream.drop k := by
+  obtain ⟨u, _, hs, _, _⟩ := h
+  exact ⟨u.length, by rw [hs]; simp⟩
+
+theorem take1_drop1 (l : List Nat) : l = l.take 1 ++ l.drop 1 := by cases l <;> simp
 
 theorem pop_stream (s : Sim) : s.pop.2.stream = s.stream.drop 1 := by
   unfold Sim.pop; cases s.stream <;> simp
@@ -24,7 +43,25 @@ theorem pop_stream (s : Sim) : s.pop.2.stream = s.stream.drop 1 := by
 theorem pop_value (s : Sim) : s.pop.1 = s.stream.headD 0 := by
   unfold Sim.pop; cases s.stream <;> simp
 
-theorem Drops.pop (s : Sim) : Drops s s.pop.2 := ⟨1, pop_stream s⟩
+theorem pop_seeds (s : Sim) : s.pop.2.seeds = s.seeds := by
+  unfold Sim.pop; cases s.stream <;> rfl
+
+theorem Drops.pop (s : Sim) : Drops s s.pop.2 :=
+  ⟨s.stream.take 1, [], by rw [pop_stream]; exact take1_drop1 _, by simp [pop_seeds], by simp⟩
+
+/-- building a tokio runtime: its seed is the element the `pop` takes -/
+theorem Drops.seed (s : Sim) (path : String) : Drops s ((s.pop.2).recordSeed path s) := by
+  refine ⟨s.stream.take 1, s.stream.head?.toList.map (fun x => (path, x)), ?_, ?_, ?_⟩
+  · show s.stream = _ ++ s.pop.2.stream
+    rw [pop_stream]; exact take1_drop1 _
+  · show s.pop.2.seeds ++ _ = _
+    rw [pop_seeds]
+  · intro x hx
+    cases hst : s.stream with
+    | nil => simp [hst] at hx
+    | cons y r =>
+      simp only [hst, List.head?_cons, Option.toList, List.map_cons, List.map_nil, List.mem_singleton] at hx
+      simp [hx]
 
 @[simp] theorem log_stream (s : Sim) (p w who peer : String) (args : List Nat) : (s.log p w who peer args).stream = s.stream := rfl
 @[simp] theorem push_stream (s : Sim) (ev : KEvent) (t : Nat) : (s.push ev t).stream = s.stream := rfl
@@ -32,15 +69,34 @@ theorem Drops.pop (s : Sim) : Drops s s.pop.2 := ⟨1, pop_stream s⟩
 @[simp] theorem allocSleep_stream (s : Sim) (n : Nat) : (s.allocSleep n).stream = s.stream := rfl
 @[simp] theorem updMod_stream (s : Sim) (mi : Nat) (f : ModRt → ModRt) : (s.updMod mi f).stream = s.stream := rfl
 @[simp] theorem setFes_stream (s : Sim) (f : FES.State) : (s.setFes f).stream = s.stream := rfl
+@[simp] theorem setFes_seeds (s : Sim) (f : FES.State) : (s.setFes f).seeds = s.seeds := rfl
 
 @[simp] theorem schedule_stream (s : Sim) (ev : KEvent) (t : Nat) : (s.schedule ev t).stream = s.stream := by
   unfold Sim.schedule; cases FES.add s.fes t s.evs.length <;> rfl
 
+@[simp] theorem schedule_seeds (s : Sim) (ev : KEvent) (t : Nat) : (s.schedule ev t).seeds = s.seeds := by
+  unfold Sim.schedule; cases FES.add s.fes t s.evs.length <;> rfl
+
+@[simp] theorem log_seeds (s : Sim) (p w who peer : String) (args : List Nat) : (s.log p w who peer args).seeds = s.seeds := rfl
+@[simp] theorem updMod_seeds (s : Sim) (mi : Nat) (f : ModRt → ModRt) : (s.updMod mi f).seeds = s.seeds := rfl
+@[simp] theorem addDropped_stream (s : Sim) (l : List (String × String)) : (s.addDropped l).stream = s.stream := rfl
+
+theorem requestShutdown_drops (s : Sim) (mi : Nat) (path who : String) (d : Option Nat) :
+    Drops s (requestShutdown s mi path who d) := by
+  unfold requestShutdown
+  cases s.mods[mi]? with
+  | none => exact Drops.refl s
+  | some m =>
+    simp only []
+    by_cases hi : m.inc < maxInc
+    · simp only [hi, if_true]; exact Drops.of_eq rfl rfl
+    · simp only [hi, if_false]; exact Drops.refl s
+
 theorem stepSync_drops (net : Net) (s : Sim) (mi : Nat) (path : String) (ttl : Nat) (who : String) (st : Step) :
     Drops s (stepSync net s mi path ttl who st) := by
   cases st with
-  | draw => exact ⟨1, by simp [stepSync, pop_stream]⟩
-  | draw32 => exact ⟨1, by simp [stepSync, pop_stream]⟩
+  | draw => exact (Drops.pop s).trans (Drops.of_eq rfl rfl)
+  | draw32 => exact (Drops.pop s).trans (Drops.of_eq rfl rfl)
   | send dst kind =>
     simp only [stepSync]
     by_cases h0 : ttl = 0
@@ -54,21 +110,25 @@ theorem stepSync_drops (net : Net) (s : Sim) (mi : Nat) (path : String) (ttl : N
         | some di =>
           simp only []
           cases l.chan with
-          | none => exact Drops.of_eq rfl
+          | none => exact Drops.of_eq rfl rfl
           | some lj =>
             obtain ⟨lat, jit⟩ := lj
             simp only []
             by_cases hj : jit = 0
-            · simp only [hj, if_true]; exact Drops.of_eq rfl
-            · simp only [hj, if_false]; exact ⟨1, by simp [pop_stream]⟩
+            · simp only [hj, if_true]; exact Drops.of_eq rfl rfl
+            · simp only [hj, if_false]
+              have hA : Drops s (s.bump.log path "send" who dst [kind, ttl - 1, s.serial + 1]) := Drops.of_eq rfl rfl
+              exact (hA.trans (Drops.pop _)).trans (Drops.of_eq rfl rfl)
   | sched d kind =>
     simp only [stepSync]
     by_cases h0 : ttl = 0
     · simp only [h0, if_true]; exact Drops.refl s
-    · simp only [h0, if_false]; exact Drops.of_eq rfl
+    · simp only [h0, if_false]; exact Drops.of_eq rfl rfl
   | spawn t => exact Drops.refl s
   | sleep d => exact Drops.refl s
   | sel ds => exact Drops.refl s
+  | shut => exact requestShutdown_drops ..
+  | restart d => exact requestShutdown_drops ..
 
 theorem runHandler_drops (net : Net) (mi : Nat) (path : String) (ttl : Nat) (steps : List Step) :
     ∀ s : Sim, Drops s (runHandler net s mi path ttl steps) := by
@@ -81,13 +141,15 @@ theorem runHandler_drops (net : Net) (mi : Nat) (path : String) (ttl : Nat) (ste
       simp only [runHandler]
       cases findTask net.tasks tag with
       | none => exact ih s
-      | some prog => exact (Drops.of_eq rfl).trans (ih _)
+      | some prog => exact Drops.after_eq (ih _) rfl rfl
     | draw => exact (stepSync_drops net s mi path ttl "H" _).trans (ih _)
     | draw32 => exact (stepSync_drops net s mi path ttl "H" _).trans (ih _)
     | send d k => exact (stepSync_drops net s mi path ttl "H" _).trans (ih _)
     | sched d k => exact (stepSync_drops net s mi path ttl "H" _).trans (ih _)
     | sleep d => exact (stepSync_drops net s mi path ttl "H" _).trans (ih _)
     | sel ds => exact (stepSync_drops net s mi path ttl "H" _).trans (ih _)
+    | shut => exact (stepSync_drops net s mi path ttl "H" _).trans (ih _)
+    | restart d => exact (stepSync_drops net s mi path ttl "H" _).trans (ih _)
 
 theorem selPoll_drops (s : Sim) (mi : Nat) (path tag : String) (ti : Nat) (ss : List Sl) :
     Drops s (selPoll s mi path tag ti ss).1 := by
@@ -98,35 +160,37 @@ theorem selPoll_drops (s : Sim) (mi : Nat) (path tag : String) (ti : Nat) (ss : 
   | some m =>
     simp only []
     split
-    · exact (Drops.pop s).trans (Drops.of_eq rfl)
-    · exact (Drops.pop s).trans (Drops.of_eq rfl)
+    · exact (Drops.pop s).trans (Drops.of_eq rfl rfl)
+    · exact (Drops.pop s).trans (Drops.of_eq rfl rfl)
 
 theorem runTask_drops (net : Net) (a : Ambient) (mi : Nat) (path tag : String) (ti ttl : Nat) (prog : List Step) :
     ∀ s : Sim, Drops s (runTask net a mi path tag ti ttl s prog) := by
   induction prog with
-  | nil => intro s; exact Drops.of_eq rfl
+  | nil => intro s; exact Drops.of_eq rfl rfl
   | cons st r ih =>
     intro s
     cases st with
     | sleep d =>
       simp only [runTask]
       by_cases hd : d = 0
-      · simp only [hd, if_true]; exact (Drops.of_eq rfl).trans (ih _)
-      · simp only [hd, if_false]; exact Drops.of_eq rfl
+      · simp only [hd, if_true]; exact Drops.after_eq (ih _) rfl rfl
+      · simp only [hd, if_false]; exact Drops.of_eq rfl rfl
     | sel ds =>
       simp only [runTask]
       have hp := selPoll_drops (s.allocSleep ds.length) mi path tag ti (mkSleeps a s.now s.nextSleep ds)
       generalize selPoll (s.allocSleep ds.length) mi path tag ti (mkSleeps a s.now s.nextSleep ds) = res at hp
       obtain ⟨s', ss', w⟩ := res
-      have h0 : Drops s s' := (Drops.of_eq (s := s) (s' := s.allocSleep ds.length) rfl).trans hp
+      have h0 : Drops s s' := (Drops.of_eq (s := s) (s' := s.allocSleep ds.length) rfl rfl).trans hp
       cases w with
       | some w => exact h0.trans (ih _)
-      | none => exact h0.trans (Drops.of_eq rfl)
+      | none => exact h0.trans (Drops.of_eq rfl rfl)
     | spawn t => simp only [runTask]; exact ih _
     | draw => simp only [runTask]; exact (stepSync_drops net s mi path ttl tag _).trans (ih _)
     | draw32 => simp only [runTask]; exact (stepSync_drops net s mi path ttl tag _).trans (ih _)
     | send d k => simp only [runTask]; exact (stepSync_drops net s mi path ttl tag _).trans (ih _)
     | sched d k => simp only [runTask]; exact (stepSync_drops net s mi path ttl tag _).trans (ih _)
+    | shut => simp only [runTask]; exact (stepSync_drops net s mi path ttl tag _).trans (ih _)
+    | restart d => simp only [runTask]; exact (stepSync_drops net s mi path ttl tag _).trans (ih _)
 
 theorem pollTask_drops (net : Net) (a : Ambient) (s : Sim) (mi : Nat) (path : String) (ti : Nat) :
     Drops s (pollTask net a s mi path ti) := by
@@ -141,7 +205,7 @@ theorem pollTask_drops (net : Net) (a : Ambient) (s : Sim) (mi : Nat) (path : St
       simp only []
       by_cases hd : s.now < sl.deadline
       · simp only [hd, if_true]; exact Drops.refl s
-      · simp only [hd, if_false]; exact (Drops.of_eq rfl).trans (runTask_drops ..)
+      · simp only [hd, if_false]; exact Drops.after_eq (runTask_drops ..) rfl rfl
     | selecting ss =>
       simp only []
       have hp := selPoll_drops s mi path t.tag ti ss
@@ -149,7 +213,7 @@ theorem pollTask_drops (net : Net) (a : Ambient) (s : Sim) (mi : Nat) (path : St
       obtain ⟨s', ss', w⟩ := res
       cases w with
       | some w => exact hp.trans (runTask_drops ..)
-      | none => exact hp.trans (Drops.of_eq rfl)
+      | none => exact hp.trans (Drops.of_eq rfl rfl)
 
 theorem schedLoop_drops (net : Net) (a : Ambient) (mi : Nat) (path : String) (fuel : Nat) :
     ∀ s : Sim, Drops s (schedLoop net a mi path fuel s) := by
@@ -163,11 +227,11 @@ theorem schedLoop_drops (net : Net) (a : Ambient) (mi : Nat) (path : String) (fu
     | some m =>
       simp only []
       cases nextTask (m.tick + 1) m.localq m.inject with
-      | none => exact Drops.of_eq rfl
+      | none => exact Drops.of_eq rfl rfl
       | some r =>
         obtain ⟨t, l, i⟩ := r
         simp only []
-        have hA : Drops s (s.updMod mi (fun m => { m with tick := m.tick + 1, localq := l, inject := i })) := Drops.of_eq rfl
+        have hA : Drops s (s.updMod mi (fun m => { m with tick := m.tick + 1, localq := l, inject := i })) := Drops.of_eq rfl rfl
         exact (hA.trans (pollTask_drops net a _ mi path t)).trans (ih _)
 
 theorem flush_stream (s : Sim) : s.flush.stream = s.stream := by
@@ -179,43 +243,84 @@ theorem flush_stream (s : Sim) : s.flush.stream = s.stream := by
     | cons p r ih => intro s0; simp only [List.foldl_cons]; rw [ih, schedule_stream]
   rw [this]
 
+theorem flush_seeds (s : Sim) : s.flush.seeds = s.seeds := by
+  unfold Sim.flush
+  have : ∀ (l : List (KEvent × Nat)) (s0 : Sim), (l.foldl (fun s p => s.schedule p.1 p.2) s0).seeds = s0.seeds := by
+    intro l
+    induction l with
+    | nil => intro s0; rfl
+    | cons p r ih => intro s0; simp only [List.foldl_cons]; rw [ih, schedule_seeds]
+  rw [this]
+
+theorem deactivate_drops (b : Bool) (s : Sim) (mi : Nat) : Drops s (deactivate b s mi) := by
+  unfold deactivate
+  cases s.mods[mi]? with
+  | none => exact Drops.refl _
+  | some m =>
+    simp only []
+    cases wakeTime b m with
+    | none => exact Drops.refl _
+    | some t => exact Drops.of_eq (by simp) (by simp)
+
+theorem resetStage_drops (net : Net) (a : Ambient) (s : Sim) (mi : Nat) (path : String) :
+    Drops s (resetStage net a s mi path) := by
+  unfold resetStage
+  simp only []
+  have h1 : Drops s (((s.pop.2).recordSeed path s).log path "reset" "H" "-" []) :=
+    (Drops.seed s path).trans (Drops.of_eq rfl rfl)
+  exact (h1.trans (schedLoop_drops ..)).trans (deactivate_drops ..)
+
+theorem processShutdown_drops (net : Net) (a : Ambient) (s : Sim) (mi : Nat) :
+    Drops s (processShutdown net a s mi) := by
+  unfold processShutdown
+  cases s.mods[mi]? with
+  | none => exact Drops.refl s
+  | some m =>
+    simp only []
+    cases m.shutdownReq with
+    | none => exact Drops.refl s
+    | some restart =>
+      simp only []
+      have h1 : Drops s ((s.addDropped (unfinishedTags m)).updMod mi (shutMod s.now)) := Drops.of_eq rfl rfl
+      have h2 := h1.trans (resetStage_drops net a _ mi m.path)
+      cases restart with
+      | none => exact h2
+      | some t => exact h2.trans (Drops.of_eq (by simp) (by simp))
+
 theorem moduleEvent_drops (net : Net) (a : Ambient) (s : Sim) (mi : Nat) (cb : Callback) (flush : Bool) :
     Drops s (moduleEvent net a s mi cb flush) := by
   unfold moduleEvent
   cases s.mods[mi]? with
-  | none => exact Drops.of_eq rfl
+  | none => exact Drops.of_eq rfl rfl
   | some m0 =>
     simp only []
-    have h1 : Drops s (seedStage (s.updMod mi (activate s.now)) mi m0.seeded) := by
-      unfold seedStage
-      cases m0.seeded
-      · simp only [Bool.false_eq_true, if_false]
-        have hA : Drops s (s.updMod mi (activate s.now)) := Drops.of_eq rfl
-        exact (hA.trans (Drops.pop _)).trans (Drops.of_eq rfl)
-      · exact Drops.of_eq rfl
-    generalize seedStage (s.updMod mi (activate s.now)) mi m0.seeded = s1 at h1
-    have h2 : Drops s1 (runCallback net s1 mi m0 cb) := by
-      cases cb with
-      | start => exact (Drops.of_eq rfl).trans (runHandler_drops ..)
-      | message msg => exact (Drops.of_eq rfl).trans (runHandler_drops ..)
-      | wakeup => exact Drops.refl _
-      | end_ => exact (Drops.of_eq rfl).trans (runHandler_drops ..)
-    generalize runCallback net s1 mi m0 cb = s2 at h2
-    have h3 := schedLoop_drops net a mi m0.path (execFuel s2 mi) s2
-    generalize schedLoop net a mi m0.path (execFuel s2 mi) s2 = s3 at h3
-    have h4 : Drops s3 (deactivate net.skipEmpty s3 mi) := by
-      unfold deactivate
-      cases s3.mods[mi]? with
-      | none => exact Drops.refl _
-      | some m =>
-        simp only []
-        cases wakeTime net.skipEmpty m with
-        | none => exact Drops.refl _
-        | some t => exact Drops.of_eq (by simp)
-    have h5 := ((h1.trans h2).trans h3).trans h4
+    have h0 : Drops s (wakeStage s mi cb) := by cases cb <;> exact Drops.of_eq rfl rfl
+    generalize wakeStage s mi cb = s0 at h0
+    have h3 : Drops s0 (execStage net a s0 mi m0 cb) := by
+      unfold execStage
+      cases cb.runs m0.active
+      · exact Drops.refl _
+      · simp only [if_true]
+        have h1 : Drops s0 (seedStage s0 mi m0.path m0.seeded) := by
+          unfold seedStage
+          cases m0.seeded
+          · simp only [Bool.false_eq_true, if_false]
+            exact (Drops.seed s0 m0.path).trans (Drops.of_eq rfl rfl)
+          · exact Drops.refl _
+        generalize seedStage s0 mi m0.path m0.seeded = s1 at h1
+        have h2 : Drops s1 (runCallback net s1 mi m0 cb) := by
+          cases cb with
+          | start => exact Drops.after_eq (runHandler_drops ..) rfl rfl
+          | message msg => exact Drops.after_eq (runHandler_drops ..) rfl rfl
+          | wakeup => exact Drops.refl _
+          | end_ => exact Drops.after_eq (runHandler_drops ..) rfl rfl
+          | restart => exact Drops.after_eq (runHandler_drops ..) rfl rfl
+        exact (h1.trans h2).trans (schedLoop_drops ..)
+    have h5 := (h0.trans h3).trans (deactivate_drops net.skipEmpty _ mi)
     cases flush
     · exact h5
-    · simp only [if_true]; exact h5.trans (Drops.of_eq (flush_stream _))
+    · simp only [if_true]
+      exact (h5.trans (Drops.of_eq (flush_stream _) (flush_seeds _))).trans (processShutdown_drops ..)
 
 theorem step_drops (net : Net) (a : Ambient) (s s' : Sim) (h : step net a s = some s') : Drops s s' := by
   unfold step at h
@@ -226,12 +331,13 @@ theorem step_drops (net : Net) (a : Ambient) (s s' : Sim) (h : step net a s = so
     simp only [hf, Option.some.injEq] at h
     subst h
     cases s.evs[e.val]? with
-    | none => exact Drops.of_eq rfl
+    | none => exact Drops.of_eq rfl rfl
     | some ev =>
       cases ev with
-      | deliver mi m => exact (Drops.of_eq rfl).trans (moduleEvent_drops ..)
-      | wakeup mi => exact (Drops.of_eq rfl).trans (moduleEvent_drops ..)
-      | exitConn mi m => exact Drops.of_eq (by simp [dispatch])
+      | deliver mi m => exact Drops.after_eq (moduleEvent_drops ..) rfl rfl
+      | wakeup mi => exact Drops.after_eq (moduleEvent_drops ..) rfl rfl
+      | restart mi => exact Drops.after_eq (moduleEvent_drops ..) rfl rfl
+      | exitConn mi m => exact Drops.of_eq (by simp [dispatch]) (by simp [dispatch])
 
 theorem loop_drops (net : Net) (a : Ambient) (fuel : Nat) :
     ∀ (s : Sim) (n : Nat), Drops s (loop net a fuel s n).1 := by
@@ -241,7 +347,7 @@ theorem loop_drops (net : Net) (a : Ambient) (fuel : Nat) :
     simp only [loop]
     by_cases h0 : FES.len s.fes = 0
     · simp only [h0, if_true]; exact Drops.refl s
-    · simp only [h0, if_false]; exact Drops.of_eq rfl
+    · simp only [h0, if_false]; exact Drops.of_eq rfl rfl
   | succ k ih =>
     intro s n
     simp only [loop]
@@ -259,20 +365,32 @@ theorem foldEvents_drops (net : Net) (a : Ambient) (cb : Callback) (flush : Bool
   | nil => intro s; exact Drops.refl s
   | cons mi r ih => intro s; exact (moduleEvent_drops ..).trans (ih _)
 
-theorem finalSim_drops (net : Net) (a : Ambient) (stream : List Nat) (fuel : Nat) :
-    ∃ k, (finalSim net a stream fuel).1.stream = stream.drop k := by
-  have h0 : (init net a stream).stream = stream := rfl
+theorem finalSim_Drops (net : Net) (a : Ambient) (stream : List Nat) (fuel : Nat) :
+    Drops (init net a stream) (finalSim net a stream fuel).1 := by
   have h1 : Drops (init net a stream) (simStart net a (init net a stream)) := foldEvents_drops ..
   have h2 := loop_drops net a fuel (simStart net a (init net a stream)) 0
   unfold finalSim
   simp only []
   generalize loop net a fuel (simStart net a (init net a stream)) 0 = r at h2
   cases r.1.fault with
-  | some f => have := h1.trans h2; rw [Drops, h0] at this; exact this
+  | some f => exact h1.trans h2
   | none =>
     have h3 : Drops r.1 (simEnd net a r.1) := foldEvents_drops ..
-    have := (h1.trans h2).trans h3
-    rw [Drops, h0] at this
-    exact this
+    exact (h1.trans h2).trans h3
+
+theorem finalSim_drops (net : Net) (a : Ambient) (stream : List Nat) (fuel : Nat) :
+    ∃ k, (finalSim net a stream fuel).1.stream = stream.drop k :=
+  (finalSim_Drops net a stream fuel).drop
+
+/-- every tokio seed recorded during the run is an element of the simulation's random stream -/
+theorem finalSim_seeds (net : Net) (a : Ambient) (stream : List Nat) (fuel : Nat) :
+    ∀ x ∈ (finalSim net a stream fuel).1.seeds, x.2 ∈ stream := by
+  obtain ⟨u, e, hs, hd, hm⟩ := finalSim_Drops net a stream fuel
+  intro x hx
+  have h0 : (init net a stream).seeds = [] := rfl
+  have hst : (init net a stream).stream = stream := rfl
+  rw [hd, h0, List.nil_append] at hx
+  rw [← hst, hs]
+  exact List.mem_append.mpr (Or.inl (hm x hx))
 
 end Repro
